@@ -27,6 +27,9 @@ pub fn install_panic_hook() {
             } else {
                 "<non-string panic>".to_string()
             };
+            if std::env::var("PVMON_PRINT_PANICS").is_ok() {
+                eprintln!("panic: {} @ {}", msg, loc);
+            }
             LAST_PANIC.with(|p| *p.borrow_mut() = Some(format!("{} @ {}", msg, loc)));
         }));
     });
